@@ -133,6 +133,16 @@ func (p *Parser) AppendLastReturnT() {
 	p.lastReturnT = append(p.lastReturnT, *lastEvaluatedT)
 }
 
+func (p *Parser) CountLastReturnT() int {
+	return len(p.lastReturnT)
+}
+
+func (p *Parser) TruncateLastReturnT(count int) {
+	if count < len(p.lastReturnT) {
+		p.lastReturnT = p.lastReturnT[:count]
+	}
+}
+
 func (p *Parser) ConsumeLastReturnT() []base.T {
 	returnTs := p.lastReturnT
 
